@@ -41,16 +41,22 @@ CMPOPS = {'<': 'CLt', '>': 'CGt', '==': 'CEq'}
 LEVELS = [['|'], ['^'], ['&'], ['=='], ['<', '>'], ['+', '-'], ['*']]
 
 
+MAX_WIDTH = 1 << 16   # no vector / literal / memory of the subset is anywhere near this; larger = absurd text
+
+
 def tokenize(text):
-    pos, out = 0, []
+    pos, out, lines, line = 0, [], [], 1
     while pos < len(text):
         m = TOKEN.match(text, pos)
         if not m:
-            raise ReaderError('cannot tokenize at %r' % text[pos:pos + 30])
-        pos = m.end()
+            raise ReaderError('cannot tokenize: line %d: %r' % (line, text[pos:pos + 40]))
         k = m.lastgroup
         if k != 'ws':
             out.append((k, m.group()))
+            lines.append(line)
+        line += text.count('\n', pos, m.end())
+        pos = m.end()
+    tokenize.last_lines = lines
     return out
 
 
@@ -96,6 +102,8 @@ class P(object):
         if self.number() != 0:
             raise ReaderError('range must end at 0')
         self.eat(']')
+        if hi + 1 > MAX_WIDTH:
+            raise ReaderError('range wider than %d bits: [%d:0]' % (MAX_WIDTH, hi))
         return hi + 1
 
     # ---- expressions
@@ -129,6 +137,8 @@ class P(object):
         k, v = self.next()
         if k == 'sized':
             w, rest = v.split("'")
+            if not 1 <= int(w) <= MAX_WIDTH:
+                raise ReaderError('sized literal with a size outside 1..%d: %s' % (MAX_WIDTH, v[:60]))
             return ('sized', int(w), int(rest[1:], 16 if rest[0] == 'h' else 10))
         if k == 'num':
             return ('dec', int(v))
@@ -309,8 +319,28 @@ class Module(object):
             items(self.assigns), memrds, mode, items(self.resets), items(self.updates), memwrs)
 
 
-def parse_module(text):
+def _with_context(fn, text, *args):
+    """run a parser; a ReaderError raised while tokens remain gets the offending source line appended"""
     p = P(tokenize(text))
+    lines = tokenize.last_lines
+    try:
+        return fn(p, *args)
+    except ReaderError as e:
+        if 0 < p.i <= len(lines) and p.peek()[0] != 'eof':
+            ln = lines[p.i - 1]
+            raise ReaderError('%s  [line %d: %s]' % (e, ln, text.split('\n')[ln - 1].strip()[:160]))
+        raise
+    except (RecursionError, MemoryError, OverflowError, ValueError) as e:
+        raise ReaderError('reader gave up: %s: %s' % (type(e).__name__, str(e)[:100]))
+
+
+def parse_module(text, reset_port=None):
+    """reset_port: True = the module was exported with add_reset (first `input rst;` is the reset port),
+    False = `rst` is an ordinary identifier, None = infer from the port list"""
+    return _with_context(_parse_module, text, reset_port)
+
+
+def _parse_module(p, reset_port):
     m = Module()
     p.eat('module')
     if p.ident() != 'toplevel':
@@ -331,7 +361,7 @@ def parse_module(text):
             if kw == 'input' and name == 'clk' and w == 1:
                 continue
             if kw == 'input' and name == 'rst' and w == 1 and 'rst' in m.ports[:2] and not m.has_rst \
-                    and not m.inputs:
+                    and not m.inputs and reset_port is not False:
                 m.has_rst = True
                 continue
             {'input': m.inputs, 'output': m.outputs, 'wire': m.wires}[kw].append((name, w))
@@ -378,6 +408,8 @@ def parse_module(text):
     p.eat('endmodule')
     if p.peek()[0] != 'eof':
         raise ReaderError('text after endmodule')
+    if reset_port is True and not m.has_rst:
+        raise ReaderError('no rst port although the module was exported with a reset option')
     m.validate()
     return m
 
@@ -485,8 +517,11 @@ class Testbench(object):
         return '(mkTB [%s] %s)' % ('; '.join(stmt(t) for t in self.init), cyc)
 
 
-def parse_testbench(text):
-    p = P(tokenize(text))
+def parse_testbench(text, reset_port=None):
+    return _with_context(_parse_testbench, text, reset_port)
+
+
+def _parse_testbench(p, reset_port):
     tb = Testbench()
     if p.at('`'):
         p.eat('`')
@@ -504,7 +539,7 @@ def parse_testbench(text):
         p.eat(';')
         if kw == 'reg' and name == 'clk' and w == 1:
             continue
-        if kw == 'reg' and name == 'rst' and w == 1 and not tb.regs and not tb.has_rst:
+        if kw == 'reg' and name == 'rst' and w == 1 and not tb.regs and not tb.has_rst and reset_port is not False:
             tb.has_rst = True
             continue
         (tb.regs if kw == 'reg' else tb.wires).append((name, w))
